@@ -176,6 +176,7 @@ pub struct Shadow {
     clock: u64,
     progress_off: bool,
     last_epsilon: Option<(usize, usize)>,
+    text_len: usize,
     dead: bool,
 }
 
@@ -210,6 +211,7 @@ impl Shadow {
                 clock: 0,
                 progress_off: false,
                 last_epsilon: None,
+                text_len: 0,
                 dead: false,
             },
             res,
@@ -332,6 +334,7 @@ impl Observer for Shadow {
         self.failneg_target = None;
         self.cut_seen = false;
         self.reset_progress(info.prog);
+        self.text_len = info.text.len();
         self.last_epsilon = None;
         self.cur_is_begin = false;
         self.cur_is_end = false;
@@ -384,8 +387,24 @@ impl Observer for Shadow {
         if self.check_progress {
             // epsilon guard probe
             match insn {
-                Insn::RepeatEpsilonGr { .. } | Insn::RepeatEpsilonNg { .. } => {
-                    self.last_epsilon = Some((pc, ix))
+                Insn::RepeatEpsilonGr { lo, repeat, .. } | Insn::RepeatEpsilonNg { lo, repeat, .. } => {
+                    self.last_epsilon = Some((pc, ix));
+                    // Bounded counters: beyond `lo`, the guard lets an iteration start only if the
+                    // previous one consumed input, and the position never moves left from one
+                    // iteration to the next (look-arounds restore it), so the iteration counter of
+                    // a guarded loop can never exceed lo + |text| + 1. A larger value means the
+                    // guard is ineffective: the loop spins (its counter changes every round, so
+                    // the configuration test below cannot see it) until a limit error.
+                    let rc = st.raw_saves().get(*repeat).copied().unwrap_or(0);
+                    if rc != usize::MAX && rc > lo.saturating_add(self.text_len).saturating_add(2) {
+                        self.fail(
+                            "no-progress",
+                            format!(
+                                "empty-iteration guard ineffective: the repeat at pc {} (lo {}) is in iteration {} on a text of {} bytes; every iteration beyond lo must consume input, so this can only end in a spurious StackOverflow / BacktrackLimitExceeded",
+                                pc, lo, rc, self.text_len
+                            ),
+                        );
+                    }
                 }
                 _ => {}
             }
